@@ -40,11 +40,12 @@ impl rustradio::Sample for Pkt {
         4
     }
     fn parse(data: &[u8]) -> rustradio::Result<Pkt> {
-        Ok(Pkt(u32::from_le_bytes(data.try_into().map_err(|_| rustradio::Error::msg("size"))?)))
+        Ok(Pkt(u32::from_be_bytes(data.try_into().map_err(|_| rustradio::Error::msg("size"))?)))
     }
     fn serialize(&self) -> Vec<u8> {
         marker(&format!("SER {}", self.0));
-        self.0.to_le_bytes().to_vec()
+        // Big endian: packet 10 ends in a newline byte of its own.
+        self.0.to_be_bytes().to_vec()
     }
 }
 
